@@ -3,8 +3,11 @@ EXTENDS RepoTrace
 ChainParent == [r |-> "", s |-> "r", l |-> "s"]
 StarParent  == [r |-> "", s |-> "r", l |-> "r"]
 TwoParent   == [r |-> "", s |-> "r", l |-> ""]
+ChainAlt == [r |-> {}, s |-> {"r", ""}, l |-> {"s", "r"}]
+StarAlt  == [r |-> {}, s |-> {"r"}, l |-> {"r", "s"}]
+TwoAlt   == [r |-> {}, s |-> {"r"}, l |-> {"", "s"}]
 AnyFlagSets == SUBSET Flags
-AllEnv   == {"Edit", "Touch", "DeleteArt", "Truncate", "StripKey", "Replace", "MakeCsr", "EditProfile", "Expire"}
+AllEnv   == {"Edit", "Touch", "DeleteArt", "Truncate", "StripKey", "Replace", "MakeCsr", "EditProfile", "Expire", "SetIssuer"}
 LeafProfile == {"l"}
 AllFault == {"SignFail", "WriteErr", "WriteTorn", "Die"}
 \* the judgement is made while evaluating the ASSUME of RepoTrace; nothing is left to explore
